@@ -35,6 +35,52 @@ def apply(ss: SourceSet, file, old, new) -> SourceSet | None:
     return ss.overlay({ss.rel(f): t for f, t in texts.items()})
 
 
+def apply_unified_diff(ss: SourceSet, diff_text: str) -> SourceSet | None:
+    """Apply a `git diff` (unified, -p1 paths) to the in-memory sources; None when a hunk does not fit (the patch was
+    written against an older tree)."""
+    import re
+    files: dict[str, list[str]] = {}
+    cur = None
+    hunks: dict[str, list] = {}
+    for line in diff_text.splitlines():
+        if line.startswith("+++ b/"):
+            cur = line[6:].strip()
+            hunks[cur] = []
+        elif line.startswith("@@") and cur is not None:
+            m = re.match(r"@@ -(\d+)(?:,(\d+))? \+(\d+)(?:,(\d+))? @@", line)
+            hunks[cur].append([int(m.group(1)), []])
+        elif cur is not None and hunks.get(cur) and line[:1] in (" ", "+", "-") and not line.startswith("---"):
+            hunks[cur][-1][1].append(line)
+        elif cur is not None and hunks.get(cur) and line == "":
+            hunks[cur][-1][1].append(" ")
+    repl = {}
+    for rel, hs in hunks.items():
+        if rel not in ss.files:
+            return None
+        src = ss.files[rel].split("\n")
+        out = []
+        pos = 0
+        for start, lines in hs:
+            old = [l[1:] for l in lines if l[:1] in (" ", "-")]
+            new = [l[1:] for l in lines if l[:1] in (" ", "+")]
+            # locate the old block at or near the stated position
+            idx = None
+            for delta in range(0, 200):
+                for cand in (start - 1 + delta, start - 1 - delta):
+                    if cand >= pos and src[cand:cand + len(old)] == old:
+                        idx = cand
+                        break
+                if idx is not None:
+                    break
+            if idx is None:
+                return None
+            out += src[pos:idx] + new
+            pos = idx + len(old)
+        out += src[pos:]
+        repl[rel] = "\n".join(out)
+    return ss.overlay(repl)
+
+
 def verdicts(prop: str, ss: SourceSet):
     from ..main import evaluate
     ctx, _, _ = evaluate(prop, "quick", ss, selftest=False)
@@ -64,6 +110,26 @@ def selftest_property(ctx, prop: str, ss: SourceSet):
         else:
             ctx.undecided(f"{prop}.selftest", f"mutant:{mid}", "-",
                           f"rule not live: mutant `{mid}` (expected {rule}) survived; got {[ (r.rule, r.verdict) for r in res if r.verdict != report.HOLDS][:4]}")
+    # seeded breaking changes written by sub-agents for this property (seeded/<prop>-x/patch.diff): each must be reported
+    import glob as _glob
+    import os as _os
+    sroot = _os.path.join(_os.path.dirname(_os.path.dirname(_os.path.dirname(_os.path.abspath(__file__)))), "seeded")
+    for pth in sorted(_glob.glob(_os.path.join(sroot, f"{prop}-*", "patch.diff"))):
+        sid = _os.path.basename(_os.path.dirname(pth))
+        with open(pth, encoding="utf-8") as fh:
+            ms = apply_unified_diff(ss, fh.read())
+        if ms is None:
+            skipped += 1
+            ctx.notes.append(f"seeded change {sid} no longer applies")
+            continue
+        res = verdicts(prop, ms)
+        new_viol = [r for r in res if r.verdict == report.VIOLATION and r.key() not in base_viol]
+        if new_viol:
+            killed += 1
+            ctx.holds(f"{prop}.selftest", f"seed:{sid}", "-", f"seeded change reported by {new_viol[0].rule}: {new_viol[0].detail[:120]}", 1)
+        else:
+            ctx.undecided(f"{prop}.selftest", f"seed:{sid}", "-",
+                          f"rule not live: seeded change `{sid}` is not reported; got {[(r.rule, r.verdict) for r in res if r.verdict != report.HOLDS][:4]}")
     ok_b = 0
     for bid, file, old, new in benign:
         ms = apply(ss, file, old, new)
@@ -88,6 +154,30 @@ def selftest_property(ctx, prop: str, ss: SourceSet):
             bad = [r for r in res if r.verdict != report.HOLDS]
             ctx.undecided(f"{prop}.selftest", f"benign:{bid}", "-",
                           f"false alarm on benign variant `{bid}`: {[(r.rule, r.verdict, r.detail[:80]) for r in bad][:3]}")
+    # behaviour-preserving refactorings written by sub-agents for this property (benign/<prop>-r/refactor-k.patch)
+    import glob
+    import os
+    bdir = os.path.join(os.path.dirname(os.path.dirname(os.path.dirname(os.path.abspath(__file__)))), "benign", f"{prop}-r")
+    for pth in sorted(glob.glob(os.path.join(bdir, "refactor-*.patch"))):
+        bid = f"agent:{os.path.basename(pth)[:-6]}"
+        with open(pth, encoding="utf-8") as fh:
+            ms = apply_unified_diff(ss, fh.read())
+        if ms is None:
+            skipped += 1
+            ctx.notes.append(f"stored refactoring {bid} no longer applies")
+            continue
+        res = verdicts(prop, ms)
+        bv = sorted(r.rule for r in base if r.verdict == report.VIOLATION)
+        rv = sorted(r.rule for r in res if r.verdict == report.VIOLATION)
+        bu = sorted(r.rule for r in base if r.verdict == report.UNDECIDED)
+        ru = sorted(r.rule for r in res if r.verdict == report.UNDECIDED)
+        if bv == rv and bu == ru:
+            ok_b += 1
+            ctx.holds(f"{prop}.selftest", f"benign:{bid}", "-", "refactoring by an independent sub-agent: same verdicts as the base tree", 1)
+        else:
+            bad = [r for r in res if r.verdict != report.HOLDS and r.key() not in base_viol]
+            ctx.undecided(f"{prop}.selftest", f"benign:{bid}", "-",
+                          f"false alarm on stored refactoring `{bid}`: {[(r.rule, r.verdict, r.detail[:80]) for r in bad][:3]}")
     # whole-package behaviour-preserving rewrites
     from . import transforms
     bv = sorted(r.rule for r in base if r.verdict == report.VIOLATION)
